@@ -38,6 +38,7 @@ is_5321_local (const char *start, const char *end)
     int ch;
     int qpair = 0;
     int quote = 0;
+    int qend = 0; /* previous character closed a quoted-string */
 
 
     if (start == end)
@@ -50,6 +51,10 @@ is_5321_local (const char *start, const char *end)
         if (ISCNTRL(ch))
             return inverse(EEAV_LPART_CTRL_CHAR);
         if (!quote) {
+            /* a quoted-string is a whole word: only '.' may follow it */
+            if (qend && ch != '.')
+                return inverse(EEAV_LPART_MISPLACED_QUOTE);
+            qend = 0;
             switch (ch) {
             case '"': {
                 /* quote-strings are allowed at the start
@@ -78,7 +83,7 @@ is_5321_local (const char *start, const char *end)
             qpair = 0;
         else {
             switch (ch) {
-            case '"':   quote = 0; break;
+            case '"':   quote = 0; qend = 1; break;
             case '\\':  qpair = 1; break;
             }
         }
